@@ -151,7 +151,9 @@ OTHERS = [('qfa', ()), ('qfan', (1,)), ('qfan', (2,)), ('qfan', (3,)), ('qft', (
 
 def rgb_matrix(rng, n):
     """primaries of different dtypes: float64, float32, integer / boolean masks"""
-    k = int(rng.integers(0, 5))
+    k = int(rng.integers(0, 6))
+    if k == 5:  # integer-typed colour values of 8 / 16 / 24 bits (powers of such entries leave the int64 range from level 3-4 on)
+        return rng.integers(0, 2 ** [8, 16, 24][int(rng.integers(0, 3))], size=(n, n)).astype([np.int64, np.int32, np.uint32][int(rng.integers(0, 3))])
     if k == 0:
         return rng.integers(0, 2, size=(n, n))
     if k == 1:
@@ -220,6 +222,9 @@ def w_random(ctx, rng, idx):
         while n ** (2 * L) > 20000:
             L -= 1
         a = tuple(rgb_matrix(rng, n) for _ in range(3)) + (L,)  # (primaries of independent dtypes)
+        if rng.random() < 0.3:  # all three integer-typed with large entries
+            bits = [8, 16, 24][int(rng.integers(0, 3))]
+            a = tuple(rng.integers(0, 2 ** bits, size=(n, n)) for _ in range(3)) + (L,)
         ctx.describe({'model': 'rgb_fractal', 'args': [str(x.dtype) for x in a[:3]] + [L]})
         call('models.rgb_fractal', mdl.rgb_fractal, *a, prop=P, tags=['model=rgb_fractal'])
         return
